@@ -11,6 +11,7 @@
 //	go    go f(a, b)                                                 -> { vf, va, vb := f, a, b; verifhook.Go(site, func(){ vf(va, vb) }) }
 //	rand  math/rand top-level calls                                  -> func() T { verifhook.Yield(site); return rand.F(args) }()
 //	select  select { case <-a: A; case b <- v: B }                   -> switch verifhook.SelectPick(site, R(a), S(b)) { case 0: select { case <-a: A }; case 1: select { case b <- v: B }; default: <original> }
+//	entry=F+G     func (..) F(..) {                                  -> func (..) F(..) { verifhook.Yield(site); (a scheduling point at function entry)
 //	maprange=M+N  for k, v := range M {                              -> for _, k := range verifhook.MapKeys(site, M) { v, ok := M[k]; if !ok { continue }; ...
 //	        (only selects with >= 2 communication clauses whose channel expressions are identifiers, selectors or x.Done(); not labelled; no labels in the bodies)
 //
@@ -64,6 +65,7 @@ type rewriter struct {
 	edits   []*edit
 	counts  map[string]int
 	maps    map[string]bool // map expressions whose range loops are rewritten (rule maprange=expr+expr)
+	entries map[string]bool // functions that get a scheduling point at entry (rule entry=F+G)
 	removed map[string]int  // package name -> selector uses replaced
 }
 
@@ -395,6 +397,16 @@ func (rw *rewriter) collect() {
 		switch v := n.(type) {
 		case *ast.LabeledStmt:
 			labelled[v.Stmt] = true
+		case *ast.FuncDecl:
+			if v.Body != nil && rw.entries[v.Name.Name] {
+				// rule entry=F+G: a scheduling point at the entry of the listed functions / methods
+				e := &edit{lo: rw.off(v.Body.Lbrace) + 1, hi: rw.off(v.Body.Lbrace) + 1}
+				site := rw.site(v.Pos())
+				name := v.Name.Name
+				e.gen = func() string { return " " + hookName + ".Yield(" + site[:len(site)-1] + ":" + name + "\");" }
+				rw.edits = append(rw.edits, e)
+				rw.counts["entry"]++
+			}
 		case *ast.RangeStmt:
 			if len(rw.maps) > 0 {
 				rw.rangeStmt(v)
@@ -483,8 +495,15 @@ func main() {
 		rel := parts[0]
 		rules := map[string]bool{}
 		maps := map[string]bool{}
+		entries := map[string]bool{}
 		if len(parts) == 2 {
 			for _, r := range strings.Split(parts[1], ",") {
+				if strings.HasPrefix(r, "entry=") {
+					for _, m := range strings.Split(strings.TrimPrefix(r, "entry="), "+") {
+						entries[m] = true
+					}
+					continue
+				}
 				if strings.HasPrefix(r, "maprange=") {
 					for _, m := range strings.Split(strings.TrimPrefix(r, "maprange="), "+") {
 						maps[m] = true
@@ -517,7 +536,7 @@ func main() {
 				fmt.Fprintf(os.Stderr, "seamgen: parse %s: %v\n", srcPath, err)
 				os.Exit(2)
 			}
-			rw := &rewriter{fset: fset, file: f, src: src, base: name, rules: rules, maps: maps, counts: map[string]int{}, removed: map[string]int{},
+			rw := &rewriter{fset: fset, file: f, src: src, base: name, rules: rules, maps: maps, entries: entries, counts: map[string]int{}, removed: map[string]int{},
 				netName: importName(f, "net"), httpNm: importName(f, "net/http"), randNm: importName(f, "math/rand")}
 			rw.collect()
 			if len(rw.edits) == 0 {
